@@ -80,7 +80,8 @@ def model_check(ctx, prop, quick):
     cov = run_mc(ctx, "cov", module, cfg, coverage=True, timeout=600)
     need = ACTIONS + (["Restart"] if restart else []) + (["DoWait"] if wait else [])
     missing = [a for a in need if cov.coverage.get(a, [0, 0])[1] == 0
-               and cov.coverage.get(a[2:] if a.startswith("Do") else a, [0, 0])[1] == 0]
+               and cov.coverage.get(a[2:] if a.startswith("Do") else a, [0, 0])[1] == 0
+               and cov.coverage.get(a + "To", [0, 0])[1] == 0]
     if missing:
         ctx.machinery("actions never taken in the bounded model: %s" % missing)
     ctx.set_cover(action_coverage={a: v for a, v in cov.coverage.items() if v[1] > 0 and a != "DepthBound"})
